@@ -1,3 +1,3 @@
 INIT Init
 NEXT Next
-INVARIANTS C10_Alive C10_OneConnInOrder C10_NonInterference C10_NewConnOnce C10_DiscoveryRouting C10_DiscoveryComplete C10_DiscoveryDupRefused C10_StuckPeerClosed C10_PerLocalAddress C10_ServerInitiated C10_StalledPeerAlone C10_EveryStalledPeerDropped C10_AllDismantled
+INVARIANTS C10_Alive C10_ServedAgain C10_OneConnInOrder C10_NonInterference C10_NewConnOnce C10_DiscoveryRouting C10_DiscoveryComplete C10_DiscoveryDupRefused C10_StuckPeerClosed C10_PerLocalAddress C10_ServerInitiated C10_StalledPeerAlone C10_EveryStalledPeerDropped C10_AllDismantled
